@@ -157,6 +157,27 @@ theorem maxOpt_append (l₁ l₂ : List Int) : maxOpt (l₁ ++ l₂) = optMax (m
   | nil => simp [maxOpt, optMax_none_left]
   | cons t ts ih => simp [maxOpt, ih, optMax_assoc]
 
+
+theorem maxOpt_perm {l₁ l₂ : List Int} (h : l₁.Perm l₂) : maxOpt l₁ = maxOpt l₂ := by
+  have h1 := foldl_bump l₁ none
+  have h2 := foldl_bump l₂ none
+  rw [optMax_none_left] at h1 h2
+  rw [← h1, ← h2]
+  apply h.foldl_eq'
+  intro x _ y _ z
+  simp only [bump_eq, optMax_assoc, optMax_comm (some x) (some y)]
+
+/-- the maximum of the per-part maxima (parts without a timestamp contribute nothing) -/
+theorem maxOpt_parts (parts : List (List Int)) :
+    maxOpt (parts.filterMap maxOpt) = maxOpt parts.flatten := by
+  induction parts with
+  | nil => rfl
+  | cons p ps ih =>
+    rw [List.flatten_cons, maxOpt_append, ← ih]
+    cases hp : maxOpt p with
+    | none => simp [List.filterMap_cons, hp, optMax_none_left]
+    | some m => simp [List.filterMap_cons, hp, maxOpt]
+
 /-! ### The accumulator after a list of values -/
 
 theorem foldl_accumulate_some (f : β → α → β) (init : β) (vs : List α) (b : β) :
@@ -510,6 +531,59 @@ theorem occurs_iff_values (k : κ) (xs : List (Elem (κ × α))) :
     | flushBatch => simp [proj, values, Elem.value]
     | far => simp [proj, values, Elem.value]
     | term => simp [proj, values, Elem.value]
+
+
+
+/-! ### a replica of a keyed stream sees the elements of its keys -/
+
+/-- what a replica that owns the keys selected by `mine` receives: the data elements of those
+    keys and all control elements -/
+def keep (mine : κ → Bool) : Elem (κ × α) → Bool
+  | .item kv => mine kv.1
+  | .ts kv _ => mine kv.1
+  | _ => true
+
+omit [DecidableEq κ] in
+theorem filter_keep_cons (mine : κ → Bool) (e : Elem (κ × α)) (es : List (Elem (κ × α))) :
+    (e :: es).filter (keep mine) = if keep mine e then e :: es.filter (keep mine) else es.filter (keep mine) := by
+  simp [List.filter_cons]
+
+theorem proj_cons (k : κ) (e : Elem (κ × α)) (es : List (Elem (κ × α))) :
+    proj k (e :: es) =
+      (match e with
+       | .item kv => if kv.1 = k then [Elem.item kv.2] else []
+       | .ts kv t => if kv.1 = k then [Elem.ts kv.2 t] else []
+       | _ => []) ++ proj k es := by
+  cases e with
+  | item kv => by_cases h : kv.1 = k <;> simp [proj, h]
+  | ts kv t => by_cases h : kv.1 = k <;> simp [proj, h]
+  | wm t => simp [proj]
+  | flushBatch => simp [proj]
+  | far => simp [proj]
+  | term => simp [proj]
+
+theorem proj_filter_keep (mine : κ → Bool) (k : κ) (hk : mine k = true) (xs : List (Elem (κ × α))) :
+    proj k (xs.filter (keep mine)) = proj k xs := by
+  induction xs with
+  | nil => rfl
+  | cons e es ih =>
+    rw [filter_keep_cons]
+    cases hke : keep mine e with
+    | true => simp only [if_true]; rw [proj_cons, proj_cons, ih]
+    | false =>
+      simp only [Bool.false_eq_true, if_false]
+      rw [proj_cons, ih]
+      cases e with
+      | item kv =>
+        have : ¬ kv.1 = k := by intro h; simp [keep, h, hk] at hke
+        simp [this]
+      | ts kv t =>
+        have : ¬ kv.1 = k := by intro h; simp [keep, h, hk] at hke
+        simp [this]
+      | wm t => simp
+      | flushBatch => simp
+      | far => simp
+      | term => simp
 
 
 /-! ### shape of the emitted chunks (for grammar / watermark safety) -/
